@@ -372,6 +372,8 @@ class Ctx:
 
     # ------------------------------------------------------------- finish
     def write_evidence(self):
+        if os.path.realpath(REPO) != "/repo":
+            return      # development run against another checkout: never touch the committed evidence
         os.makedirs(EVIDENCE, exist_ok=True)
         cov = dict(self.cov)
         cov["distinct_nontrivial"] = max(cov.get("distinct_nontrivial", 0), len(self._distinct))
